@@ -25,6 +25,8 @@
    returns (g_ds_done / g_vs_key / g_sos_done with the msgpack stream at (input, n)) delivers that list; step_pending_denote: its
    denotation (Streams.chunks_denote) is (concat of the chunks of GoEndToEndAuth.step_loop, its ending error) = the model's
    decrypt_loop / verify_loop / sc_open_loop; step_pending_wf: it is well-formed (StreamProofs.chunks_wf).
+   go_drain_pending (TARGET): the results GoEndToEndAuth.go_drain observes on that object are map fst of that list and the Go value
+   of its ending error (hypotheses: n + F <= 2^64, len input < F, the ending error has a Go value).
    WHAT IS OBSERVED (the caveat of GoAstProofs4c.v): the bytes copy(p[n:], r.prevChunk) writes into the caller's buffer are not
    observable in the evaluator (the destination is a slice EXPRESSION, not a place of GoLang2.expr_lval).  Observed are: the
    COUNT returned (= the length of the model's output of that Read), the ERROR returned, "p" unchanged, and the READER OBJECT
@@ -118,7 +120,6 @@ Proof. destruct e; cbn [GoAstProofs4b.g_err]; intros H; try discriminate H; inje
 
 Section CRX.
 Variable gnc : gval -> option (list gval).
-Let X := ext_crx gnc.
 
 Lemma crx_rest_err (f : nat) (p : bytes) (n : Z) (o pv : gval) (nm : string) (ar : list gval) (tl : env) :
   cr_tail tl -> (pv = VNil \/ pv = VBytes []) ->
@@ -610,6 +611,28 @@ Proof.
   - cbn [pend_rep]. destruct (g_err4b e) as [ev|].
     + eexists VNil, _. unfold gnc_of. cbv zeta. rewrite Hs. split; [reflexivity|]. right; split; reflexivity.
     + unfold gnc_of. cbv zeta. rewrite Hs. reflexivity.
+Qed.
+
+(* (TARGET) the bridge, seen from GoEndToEndAuth.go_drain: the (chunk, error) results a caller of the translated getNextChunk
+   observes on obj n input ARE the model's pending list (chunk by chunk, the nil chunk returned with a failing step included),
+   whenever the ending error has a Go value *)
+Lemma go_drain_pending : forall F n input (ev : gval),
+  (n + N.of_nat F <= 18446744073709551616)%N -> (List.length input < F)%nat ->
+  g_err4b (snd (step_loop step F n input)) = Some ev ->
+  go_drain ext fn recv F (obj n input) = (map fst (step_pending F n input), Some ev).
+Proof.
+  induction F as [|F IH]; intros n input ev Hn Hlen Hev; [lia|].
+  pose proof (Hspec n input ltac:(lia)) as Hs. unfold chunk_spec in Hs.
+  cbn [step_loop step_pending go_drain] in *. cbv zeta.
+  destruct (step n input) as [[[ch final] rest]|e] eqn:Es.
+  - destruct final.
+    + cbn [fst snd] in Hev. rewrite Hev in Hs. destruct (g_err4b_verr _ _ Hev) as (nm & ar & ->).
+      rewrite Hs, (enc_bytes ch). reflexivity.
+    + destruct Hs as [Hs1 Hs2]. pose proof (step_shrinks _ _ _ _ _ Es) as Hsh.
+      rewrite Hs1, Hs2, (enc_bytes ch). cbn [fst snd] in Hev |- *.
+      rewrite (IH (n + 1)%N rest ev ltac:(lia) ltac:(lia) Hev). reflexivity.
+  - cbn [fst snd] in Hev. rewrite Hev in Hs. destruct (g_err4b_verr _ _ Hev) as (nm & ar & ->).
+    rewrite Hs. reflexivity.
 Qed.
 
 (* the reader the constructor returns, newChunkReader(obj), is in the state the model's reader starts in *)
@@ -1441,3 +1464,6 @@ Example ex_read_single :
      | _ => None
      end = Some (([x68], None), mkCr [x69] (Some EOF) []).
 Proof. vm_compute. repeat split. Qed.
+
+(* Print Assumptions on every TARGET (run in a throw-away file: ~3 s each, the closure includes GoEndToEndGate): all
+   "Closed under the global context". *)
